@@ -131,7 +131,12 @@ func inputsOf(sub subject) inputs {
 			if _, isMap := r.(map[string]any); !isMap {
 				continue
 			}
-			if pan, _, _ := ukit.Call(func() { _, err := sch.Unserialize(ukit.DeepCopy(r)); if err == nil { panic("accepted") } }); !pan {
+			if pan, _, _ := ukit.Call(func() {
+				_, err := sch.Unserialize(ukit.DeepCopy(r))
+				if err == nil {
+					panic("accepted")
+				}
+			}); !pan {
 				in.bad = r
 				break
 			}
